@@ -21,6 +21,16 @@ def clean():
 
 
 def main():
+    # checks run on a mutated tree must not leave their evidence behind: evidence/ is saved
+    # here and put back at the end (evidence that is committed comes from the unchanged tree)
+    import shutil, atexit
+    ev, bak = os.path.join(ROOT, "evidence"), os.path.join(ROOT, ".build", "evidence_backup_%d" % os.getpid())
+    shutil.copytree(ev, bak)
+    def _restore():
+        shutil.rmtree(ev, ignore_errors=True)
+        shutil.copytree(bak, ev)
+        shutil.rmtree(bak, ignore_errors=True)
+    atexit.register(_restore)
     a = sys.argv[1:]
     only = a[a.index("--only") + 1] if "--only" in a else ""
     props = a[a.index("--props") + 1].split(",") if "--props" in a else ["C%02d" % i for i in range(1, 21)]
